@@ -232,6 +232,7 @@ func (ch *channel) ReceiveAsync(ctx async.Context) ([]byte, bool, status.Status)
 	// Read next message
 	vtr("rq.poll", s.id, 0, 0)
 	data, ok, st := s.recvQueue.Read()
+	vtrok("rq.poll.done", s.id, ok)
 	if !ok || !st.OK() {
 		return nil, ok, st
 	}
@@ -267,6 +268,7 @@ func (ch *channel) ReceiveWait() <-chan struct{} {
 	defer ch.release()
 
 	vtr("rq.arm", s.id, 0, 0)
+	defer vtr("rq.arm.done", s.id, 0, 0)
 	return s.recvQueue.ReadWait()
 }
 
